@@ -177,6 +177,7 @@ pub struct Sup {
     events_dropped: u64,
 }
 
+const FAKE_PID: u64 = 4242;
 static mut ALARMED: bool = false;
 // hard per-segment guard and the 100 ms tick used (only in runs with user-space preemption) to notice a thread that
 // spin-waits on another thread parked in user space
@@ -1137,8 +1138,20 @@ impl Sup {
             }
             match class {
                 Class::Local => {
+                    // the process id is a source of nondeterminism when it ends up in a file name or a message: the tracee sees a
+                    // fixed one; calls that address the process by it (raise, abort) get the real one back
+                    if (sc.name == "tgkill" || sc.name == "kill") && a[0] == FAKE_PID {
+                        let mut r = regs;
+                        r.rdi = self.pid as u64;
+                        setregs(tid, &r);
+                    }
                     if !self.to_exit_stop(i) {
                         return;
+                    }
+                    if sc.name == "getpid" {
+                        let mut r = getregs(tid);
+                        r.rax = FAKE_PID;
+                        setregs(tid, &r);
                     }
                 }
                 Class::GetRandom => {
